@@ -263,11 +263,38 @@ def evsLine (padSize addrLen : Nat) (ws : List String) : String :=
     | _, _, _, _, _ => "bad-op"
   | _ => "bad-op"
 
+/-- `depth <form> <d>`: the documents of the boundary cases of the nesting guard.  JSON forms: the guard
+is `Eval.jsonDepthExceeds` on the bytes; XML forms: the tree has `d` (`xml`) / `d + 1` (`xmlt`)
+levels by construction.  Printed: `ok <length of the expected result>` | `err`. -/
+def depthLine (maxDepth : Nat) (ws : List String) : String :=
+  let rep (k : Nat) (s : String) : Bytes := (List.replicate k s.toUTF8.toList).flatten
+  match ws with
+  | [form, d] =>
+    match d.toNat? with
+    | none => "bad-op"
+    | some d =>
+      let one : Bytes := [0x31]
+      match form with
+      | "jarr" =>
+        let doc := rep d "[" ++ one ++ rep d "]"
+        if Eval.jsonDepthExceeds doc maxDepth then "err" else s!"ok {doc.length + 2}"
+      | "jobj" =>
+        let doc := rep d "{\"a\":" ++ one ++ rep d "}"
+        if Eval.jsonDepthExceeds doc maxDepth then "err" else s!"ok {doc.length - 6 + 2}"
+      | "jstr" =>
+        let doc := "{\"s\":\"".toUTF8.toList ++ rep d "[" ++ "\"}".toUTF8.toList
+        if Eval.jsonDepthExceeds doc maxDepth then "err" else s!"ok {d + 4}"
+      | "xml" => if maxDepth < d then "err" else s!"ok {7 * (d - 1) + 1}"
+      | "xmlt" => if maxDepth < d + 1 then "err" else s!"ok {7 * (d - 1) + 2}"
+      | _ => "bad-op"
+  | _ => "bad-op"
+
 def stepLine (padSize addrLen maxDoc : Nat) (line : String) : Option String :=
   match words line with
   | "pm" :: rest => some (pmLine padSize addrLen maxDoc rest)
   | "fetch" :: rest => some (fetchLine maxDoc rest)
   | "grpk" :: rest => some (grpkLine rest)
+  | "depth" :: rest => some (depthLine Eval.maxDocumentDepth rest)
   | "evs" :: rest => some (evsLine padSize addrLen rest)
   | _ => none
 
